@@ -37,7 +37,14 @@ func c20Exec(input sx.S) (obs sx.S) {
 	threads := sx.List(il[1])[1:]
 	sched := sx.List(il[2])[1:]
 	log := &regLog{}
-	root := ggql.NewRoot(&c19Schema{Subscription: &subRootObj{log: log}})
+	sro := &subRootObj{log: log}
+	if len(il) > 3 && sx.Head(il[3]) == "share" {
+		// the subscribers of one pattern are one Go value (see gsub in c19.go)
+		sro.groups = map[int]*gsub{}
+		c19Share = true
+		defer func() { c19Share = false }()
+	}
+	root := ggql.NewRoot(&c19Schema{Subscription: sro})
 	if err := root.ParseString(c19SDL); err != nil {
 		return sx.L("schema-error", sx.Hex(err.Error()))
 	}
@@ -213,6 +220,7 @@ func c20Gen(r *rand.Rand, tier string) []Case {
 		limit = 400
 	}
 	id := 0
+	share := false
 	add := func(threads []sx.S, kind string, lim int) {
 		steps := make([]int, len(threads))
 		for i, t := range threads {
@@ -226,6 +234,9 @@ func c20Gen(r *rand.Rand, tier string) []Case {
 		for _, sc := range all {
 			id++
 			in := sx.L("conc", append([]sx.S{"threads"}, threads...), append([]sx.S{"sched"}, sx.Ints(sc)...))
+			if share {
+				in = append(in, sx.L("share"))
+			}
 			cases = append(cases, Case{ID: fmt.Sprintf("c%d", id), Input: in, Tags: c20Tags(threads, sc, kind)})
 		}
 	}
@@ -237,6 +248,14 @@ func c20Gen(r *rand.Rand, tier string) []Case {
 	add([]sx.S{s1, p0(7), p0(8), u0}, "two-publishers-fail-same-subscriber-unsub-races", 1000)
 	add([]sx.S{s1, s2, p0(1), p0(2), u0}, "two-subs-two-pubs-unsub", 1000)
 	add([]sx.S{s2, p0(5), u0, s1, p0(6)}, "sub-pub-unsub-sub-pub", 1000)
+	// one Subscriber value behind several subscriptions (a connection that subscribes again after its
+	// first subscription failed and was removed; two subscriptions of one connection, one of which fails)
+	share = true
+	sa := sx.L("sub", sx.L("s", "1", "0", sx.Ints([]int{0}), sx.Ints([]int{1})))
+	sb := sx.L("sub", sx.L("s", "2", "0", sx.Ints([]int{1}), sx.Ints(nil)))
+	add([]sx.S{sa, p0(5), u0, sb, p0(6)}, "one-subscriber-behind-two-subscriptions-resubscribes", 600)
+	add([]sx.S{sa, sb, p0(5), p0(6)}, "one-subscriber-behind-two-subscriptions-one-fails", 200)
+	share = false
 	for m := 0; m < nmix; m++ {
 		nt := 2 + r.Intn(maxThreads-1)
 		threads := []sx.S{}
@@ -301,7 +320,10 @@ func c20Tags(threads []sx.S, sc []int, kind string) []string {
 
 func c20Valid(input sx.S) bool {
 	il := sx.List(input)
-	if sx.Head(input) != "conc" || len(il) != 3 || sx.Head(il[1]) != "threads" || sx.Head(il[2]) != "sched" {
+	if sx.Head(input) != "conc" || (len(il) != 3 && len(il) != 4) || sx.Head(il[1]) != "threads" || sx.Head(il[2]) != "sched" {
+		return false
+	}
+	if len(il) == 4 && (sx.Head(il[3]) != "share" || len(sx.List(il[3])) != 1) {
 		return false
 	}
 	hist := []sx.S{"hist"}
